@@ -259,9 +259,9 @@ PROPS.update({
     "non-trivial = the writer takes at least one step between the first and last shared access of some snapshot() call (tag overlap)",
     gens=lambda seed, th: [['slgen', seed, 40000 if th else 1500], ['slxgen', 'all'] if th else ['slxgen']] + ([['slabagen']] if th else []),
     relevant=lambda c: kind(c) in ('sl', 'slaba', 'slx'),
-    lean_modules=['ClockBound.Properties.C02', 'ClockBound.Properties.C02Full'],
+    lean_modules=['ClockBound.Properties.C02', 'ClockBound.Properties.C02Full', 'ClockBound.Properties.C02N'],
     technique='Lean 4 invariant proof over all interleavings and all stale-read choices of an operational release/acquire model (writer invariant + reader lemma), parameterised by the observed ordering annotation + schedule-level differential correspondence of the real writer/reader under a deterministic scheduler',
-    level_text='Theorems C02.even_generation_is_complete (writer invariant over every history incl. crashes/restarts), accept_consistent (an accepted attempt copied exactly the record as of its first generation message, provided fewer than 32767 updates completed between its two generation reads), no_mixture / no_mixture_general (every returned record is the empty one, the pre-existing one or one passed to write) for every annotation satisfying Ann.adequate; C02.full_false proves that without the no-wrap hypothesis the statement is false of the protocol (an explicit 360 000-step execution in which 32767 updates complete inside one read attempt and the mixture 7,7,7,9,9,9,9 is returned; generation_cycle is its arithmetic heart). The annotation is observed from the real code on every run; ~1500 seeded schedules (incl. stale reads and crashes) are executed on the real code and replayed by the model token by token.',
+    level_text='Theorems C02.even_generation_is_complete (writer invariant over every history incl. crashes/restarts), accept_consistent (an accepted attempt copied exactly the record as of its first generation message, provided fewer than 32767 updates completed between its two generation reads), no_mixture / no_mixture_general (every returned record is the empty one, the pre-existing one or one passed to write) for every annotation satisfying Ann.adequate; projection / no_mixture_any_readers lift this to any number of readers (readers never write: an N-reader system projects reader by reader onto the one-reader system); C02.full_false proves that without the no-wrap hypothesis the statement is false of the protocol (an explicit 360 000-step execution in which 32767 updates complete inside one read attempt and the mixture 7,7,7,9,9,9,9 is returned; generation_cycle is its arithmetic heart). The annotation is observed from the real code on every run; ~1500 seeded schedules (incl. stale reads and crashes) are executed on the real code and replayed by the model token by token.',
     level_note='Partial: the racy record copy is modelled as per-cell relaxed atomics; hardware is represented by the C11 RA semantics; the 16-bit ABA (32767 updates inside one read attempt) is excluded by hypothesis and recorded as known finding K1.',
  ),
  'C03': sl_entry('C03', lambda c: ('calls2' in c.tags and ('pubs2' in c.tags or 'catchup' in c.tags)) or 'longSkip' in c.tags or 'wrap' in c.tags,
